@@ -3,6 +3,7 @@
 mod adapters;
 mod atomic;
 mod drive;
+mod insitu;
 mod sim;
 use drive::*;
 use std::io::Write;
@@ -23,6 +24,7 @@ fn adapter(name: &str, variant: &str) -> Option<Box<dyn Adapter>> {
         "stacks" => Box::new(adapters::stacks::StacksAd::new()),
         "executor" => Box::new(adapters::executor::ExecutorAd::new()),
         "circuitbreaker" => Box::new(adapters::circuitbreaker::CbAd::new(variant)),
+        "insitu" => Box::new(adapters::insitu::InsituAd::new(variant)),
         _ => return None,
     })
 }
@@ -87,6 +89,25 @@ fn main() {
         };
         stats = RunStats { runs: ns, events: ne, skipped: 0 };
         eprintln!("{{\"exhaustive\":{}}}", ex);
+    } else if comp == "insitu" && mode == "replay" {
+        // a layer projection cannot be replayed by itself: its reset lines name the runs of the seeded sequence
+        // (seed, run, size) and the layer; those runs are executed again and the same projection is written
+        let input = std::fs::read_to_string(arg(&args, "--in").expect("--in")).expect("read input");
+        let rt = tokio::runtime::Builder::new_current_thread().enable_time().start_paused(true).build().unwrap();
+        let mut tot = RunStats { runs: 0, events: 0, skipped: 0 };
+        for line in input.lines() {
+            let Ok(v) = serde_json::from_str::<serde_json::Value>(line.trim()) else { continue };
+            if v["e"] != "reset" {
+                continue;
+            }
+            let var = format!("{}:{}", v["stack"]["stack"].as_str().unwrap_or("S1"), v["layer"].as_u64().unwrap_or(1));
+            let mut ad = adapter("insitu", &var).unwrap();
+            let sz = if v["size"] == "thorough" { Size::Thorough } else { Size::Quick };
+            let st = rt.block_on(run_random_from(ad.as_mut(), v["seed"].as_u64().unwrap_or(1), v["run"].as_u64().unwrap_or(0) as usize, 1, sz, &mut lines));
+            tot.runs += st.runs;
+            tot.events += st.events;
+        }
+        stats = tot;
     } else if let Some(mut ad) = adapter(&comp, &variant) {
         let rt = tokio::runtime::Builder::new_current_thread().enable_time().start_paused(true).build().unwrap();
         stats = rt.block_on(async {
